@@ -983,6 +983,9 @@ impl Group for C12Approver {
     }
 }
 
+#[path = "c12_ask.rs"]
+mod ask;
+
 pub fn groups() -> Vec<Box<dyn Group>> {
-    vec![Box::new(C12Unit), Box::new(C12Node), Box::new(C12Fee), Box::new(C12Approver)]
+    vec![Box::new(C12Unit), Box::new(C12Node), Box::new(C12Fee), Box::new(C12Approver), Box::new(ask::C12ApproverAsk)]
 }
